@@ -48,6 +48,49 @@ fn once(gsrc: String, input: String, cost: u8) -> Result<String, String> {
     let lexer = lexerdef.lexer(&input);
     let starts: Vec<usize> = lexer.iter().filter_map(|l| l.ok()).map(|l| l.span().start()).collect();
     let nlex = starts.len();
+    // C04: without recovery the one error sits at the first lexeme the table rejects (end of input: the end-of-input lexeme)
+    if lexer.iter().all(|l| l.is_ok()) {
+        use lrtable::Action;
+        let toks: Vec<TIdx<u32>> = lexer.iter().filter_map(|l| l.ok()).map(|l| TIdx(l.tok_id())).collect();
+        let mut stack = vec![stable.start_state()];
+        let mut i = 0;
+        let mut fuel = 100000;
+        let rejected_at: Option<usize> = loop {
+            fuel -= 1;
+            if fuel == 0 { break None; }
+            let la = if i < toks.len() { toks[i] } else { grm.eof_token_idx() };
+            match stable.action(*stack.last().unwrap(), la) {
+                Action::Shift(st) => { stack.push(st); i += 1; }
+                Action::Reduce(p) => { let n = grm.prod(p).len(); let l = stack.len(); stack.truncate(l - n); match stable.goto(*stack.last().unwrap(), grm.prod_to_rule(p)) { Some(st) => stack.push(st), None => break Some(i) } }
+                Action::Accept => break None,
+                Action::Error => break Some(i),
+            }
+        };
+        let pb0 = RTParserBuilder::new(&grm, &stable).recoverer(RecoveryKind::None);
+        #[allow(deprecated)]
+        let r0 = catch_unwind(AssertUnwindSafe(|| pb0.parse_generictree(&lexer)));
+        match r0 {
+            Err(_) => return Err("panic inside parse (no recovery)".into()),
+            Ok((tree0, errs0)) => {
+                match rejected_at {
+                    None => if !errs0.is_empty() || tree0.is_none() { if fuel > 0 { return Err(format!("the table accepts the input but the parser (no recovery) reports {} error(s), value: {}", errs0.len(), tree0.is_some())); } }
+                    Some(i) => {
+                        if tree0.is_some() { return Err("the table rejects the input but the parser (no recovery) returns a value".into()); }
+                        if errs0.len() != 1 { return Err(format!("the table rejects the input; without recovery exactly one error is expected, {} reported", errs0.len())); }
+                        if let LexParseError::ParseError(pe) = &errs0[0] {
+                            // the end-of-input lexeme is zero-length and sits where the last real lexeme ends
+                            let last_end = lexer.iter().filter_map(|l| l.ok()).last().map(|l| l.span().end()).unwrap_or(0);
+                            let want = if i < starts.len() { starts[i] } else { last_end };
+                            let want_len_zero = i >= starts.len();
+                            if pe.lexeme().span().start() != want || (want_len_zero && pe.lexeme().span().len() != 0) {
+                                return Err(format!("without recovery the error is reported at byte {} (len {}), the table rejects lexeme {} at byte {}{}", pe.lexeme().span().start(), pe.lexeme().span().len(), i, want, if want_len_zero { " (end of input)" } else { "" }));
+                            }
+                        }
+                    }
+                }
+            }
+        }
+    }
     let costf = move |_: TIdx<u32>| cost;
     let pb = RTParserBuilder::new(&grm, &stable).recoverer(RecoveryKind::CPCTPlus).term_costs(&costf);
     #[allow(deprecated)]
